@@ -42,7 +42,7 @@ CHECKS = {
             "resample is run on tagged particle collections with the systematic offset and categorical ancestors scripted: copies name one source, weights reset, estimate preserved, floor/ceil copies for a dense offset grid incl. all breakpoints, exact expected copies." + HELD, "DESIGN §4 C12", ""),
     "C13": ("exploration", "runtime monitor: scipy float64 reference densities under the documented parameterisation; quadrature normalisation; exact finite-n goodness-of-fit tests on seeded draws",
             "All 24 distributions (positional and keyword forms, user wrappers): logpdf on support grids, normalisation, sampler shape/dtype and goodness of fit (scalar, batched, sample_shape, modular_vmap) at family-wise false alarm <= 1e-9." + HELD, "DESIGN §4 C13", ""),
-    "C14": ("fault_enumeration", "runtime monitor: exhaustive enumeration of sampling-site placements under JAX transformations to bounded depth, with and without seed; jaxpr scan for residual sample primitives",
+    "C14": ("exploration", "runtime monitor: exhaustive enumeration of sampling-site placements under JAX transformations to bounded depth, with and without seed; jaxpr scan for residual sample primitives",
             "Every placement of a sampling site under the listed constructs (depth 2 quick / 3 thorough) is executed without and with seed; without seed compilation must raise the dedicated error, with seed the result must be key-determined with no sample primitive left, or raise that error." + HELD, "DESIGN §4 C14", ""),
     "C15": ("exploration", "differential runtime testing: ADEV jvp/grad/estimate vs jax.jvp/jax.grad/f on generated deterministic programs",
             "Generated deterministic JAX programs over scalar/array/pytree arguments are pushed through expectation(f).jvp_estimate/grad_estimate/estimate and compared with JAX's own AD." + HELD, "DESIGN §4 C15", ""),
@@ -50,7 +50,7 @@ CHECKS = {
             "Every enumerated/sampled selection expression is executed against the real match chain, Fn/Vmap/Scan/Cond filter and merge, seed(regenerate), mala and hmc, and compared with an independent Python-set interpretation of the expression; atoms and depth-1 expressions are enumerated completely, deeper ones sampled." + HELD, "DESIGN §4 C16", ""),
     "C17": ("exploration", "runtime monitor: conjugate targets with closed-form ELBO/evidence/gradients; per-draw tightness at the posterior; hooked optimiser iterations checked against the update rule; calibrated z-tests",
             "ELBO objectives on conjugate targets: estimate == log p(x) per draw at the exact posterior, calibrated mean tests otherwise, gradient means vs closed form, and every logged optimisation iteration vs params + lr*grad." + HELD, "DESIGN §4 C17", ""),
-    "C18": ("fault_enumeration", "runtime monitor: complete (n_steps, burn_in, thinning) grid; slice identity against the un-thinned run of the same key; per-step kernel log",
+    "C18": ("exploration", "runtime monitor: complete (n_steps, burn_in, thinning) grid; slice identity against the un-thinned run of the same key; per-step kernel log",
             "For every grid point the result of chain must equal the slice [burn_in::thin] of the un-thinned run with the same key (bitwise), accepts/acceptance_rate/n_steps consistent with a per-step log of the kernel; multi-chain axes and independence." + HELD, "DESIGN §4 C18", ""),
     "C19": ("exploration", "runtime monitor: generated save/namespace/scan/vmap placements vs an independent pure-Python collector",
             "Placement specs are run as state(f), jit(state(f)), seed(state(f)), state(seed(f)) and compared with a reference that threads namespaces and stacks values itself." + HELD, "DESIGN §4 C19", ""),
